@@ -147,6 +147,10 @@ def gen_idx(tier, seed, want_big=True):
         base = rng.choice([858, max(lo, 0) + rng.randint(0, 10 ** 6), lo + 3])
         m = rng.choice([45, 300, 2 * cfg["eps"] + 40])
         keys = [base] * m + [base + 6] * 2
+        if rng.random() < 0.5 and base - 3 * 2600 > lo:
+            # a few thousand distinct keys first, so that the steep last segment has an intercept above the granularity (2048)
+            # of a double near 2^64: a wrapped "prediction + intercept" then lands far below the right position
+            keys = [base - 3 * (2600 - i) for i in range(2600)] + keys
         qs = set([base, base + 1, base + 6, base + 7, hi - 1, hi - 2] + [base + (1 << j) for j in range(3, cfg["kbits"]) if base + (1 << j) <= hi - 1])
         # slope of the run segment is about m/6: queries whose predicted position slope*(q-key) lands just below 2^64 / 2^63 / 2^62
         for lim in (1 << 64, 1 << 63, 1 << 62):
@@ -320,6 +324,11 @@ def gen_dyn(tier, seed, reject=False):
                 ops.append("I:%d:4294967295" % key()); stats["ops"]["Ireserved"] = stats["ops"].get("Ireserved", 0) + 1
             if reject and rng.random() < 0.02:
                 a, b = sorted([key(), key() + 1]); ops.append("R:%d:%d" % (b, a)); stats["ops"]["Rrev"] = stats["ops"].get("Rrev", 0) + 1
+        if origin + universe >= hi:
+            # the largest admissible key (max-1) stored, then iterators started exactly on it and just below it and advanced
+            ops += ["I:%d:%d" % (hi - 1, rng.randrange(60000)), "T:%d" % (hi - 1), "T:%d" % (hi - 2), "F:%d" % (hi - 1), "L:%d" % (hi - 1),
+                    "R:%d:%d" % (hi - 3, hi - 1)]
+            stats["ops"]["at_max_minus_1"] = stats["ops"].get("at_max_minus_1", 0) + 1
         ops += ["B", "S", "M"]
         # finally erase everything in some cases so that "empty" and end-of-iteration paths are reached
         if rng.random() < 0.2:
@@ -328,6 +337,22 @@ def gen_dyn(tier, seed, reject=False):
         stats["base"][base] = stats["base"].get(base, 0) + 1
         cases.append("DYN d%d %s %d %d %s %d %d %d %d %d | %s | %s" % (j, cfg["name"], cfg["kbits"], cfg["signed"], cfg["vkind"], base, bl, il,
                                                                    cfg["eps"], cfg["epsrec"], " ".join(bulk), " ".join(ops)))
+    # a large indexed level (several segments, index of height >= 2) whose last key is max-1, with iterators started on it
+    for j in range(3 if tier == "quick" else 20):
+        cfg = cfgs[(j * 5 + seed) % len(cfgs)]
+        lo, hi = krange(cfg["kbits"], cfg["signed"])
+        if cfg["kbits"] <= 8: continue
+        base = rng.choice([4, 8]); bl = 1; il = 2
+        n0 = rng.choice([300, 600, 1200])
+        span = min(hi - 1 - lo, rng.choice([5000, 60000, 10 ** 7]))
+        ks = sorted(set([hi - 1] + [hi - 1 - rng.randrange(1, span) for _ in range(n0)]))
+        bulk = ["%d:%d" % (k, i % 60000) for i, k in enumerate(ks)]
+        ops = ["T:%d" % (hi - 1), "T:%d" % (ks[-2] + 1 if ks[-2] + 1 < hi - 1 else hi - 1), "F:%d" % (hi - 1), "L:%d" % (hi - 1), "T:%d" % ks[-3],
+               "I:%d:7" % (ks[5] + 1), "E:%d" % ks[7], "T:%d" % (hi - 1), "E:%d" % (hi - 1), "T:%d" % ks[-2], "I:%d:9" % (hi - 1), "T:%d" % (hi - 1), "B", "S", "M"]
+        stats["ops"]["big_level_at_max_minus_1"] = stats["ops"].get("big_level_at_max_minus_1", 0) + 1
+        stats["base"][base] = stats["base"].get(base, 0) + 1
+        cases.append("DYN dm%d %s %d %d %s %d %d %d %d %d | %s | %s" % (j, cfg["name"], cfg["kbits"], cfg["signed"], cfg["vkind"], base, bl, il,
+                                                                    cfg["eps"], cfg["epsrec"], " ".join(bulk), " ".join(ops)))
     # churn histories: levels that own an index (low index level), then rounds of "erase m live keys, insert m fresh keys":
     # merges into the last level that drop as many pairs as they add (same size, different keys), every live key looked up after
     # each round; aimed at stale per-level indexes and tombstone bookkeeping
@@ -459,6 +484,19 @@ def gen_map(tier, seed):
             cases.append("MAP m%d %s %d %d %d %d %d | %s | %s" % (cid, cfg["name"], cfg["kbits"], cfg["signed"], cfg["eps"], cfg["epsrec"], cfg["fdouble"],
                                                                 " ".join(map(str, keys)), " ".join(map(str, qs))))
             stats["styles"][style] = stats["styles"].get(style, 0) + 1
+            fk = "zero" if keys[0] == 0 else "positive" if keys[0] > 0 else "negative"
+            stats["first_key"][fk] = stats["first_key"].get(fk, 0) + 1
+        # several segments and levels, so that the header length varies (number of segments odd and even: the key array
+        # starts at an offset that is not always a multiple of the key size)
+        for j in range(3 if tier == "quick" else 12):
+            n = rng.choice([300, 700, 1500, 2500]) + j
+            keys = gen_keys(rng, cfg["kbits"], cfg["signed"], n, 1, rng.choice(["sparse", "clustered", "steps"]))
+            if not keys: continue
+            qs = gen_queries(rng, cfg["kbits"], cfg["signed"], keys, 25 if tier == "quick" else 80, far=False)
+            cid += 1
+            cases.append("MAP m%d %s %d %d %d %d %d | %s | %s" % (cid, cfg["name"], cfg["kbits"], cfg["signed"], cfg["eps"], cfg["epsrec"], cfg["fdouble"],
+                                                                " ".join(map(str, keys)), " ".join(map(str, qs))))
+            stats["styles"]["many-segments"] = stats["styles"].get("many-segments", 0) + 1
             fk = "zero" if keys[0] == 0 else "positive" if keys[0] > 0 else "negative"
             stats["first_key"][fk] = stats["first_key"].get(fk, 0) + 1
         if cfg["signed"]:
@@ -609,7 +647,7 @@ def gen_capi(tier, seed):
             cases.append("CIX c%d %s %d | %s | %s" % (cid, ty, eps, " ".join(map(str, keys)), " ".join(map(str, qs))))
             stats["cix"] += 1; stats["eps"][eps if eps in (1, 2, 3, 7, 64, 4096) else "other"] = stats["eps"].get(eps if eps in (1, 2, 3, 7, 64, 4096) else "other", 0) + 1
         lo, hi = krange(kb, sg)
-        for j in range(4 if tier == "quick" else 40):
+        for j in range(4 if tier == "quick" else 14):
             universe = rng.choice([50, 2000, 100000])
             origin = rng.randint(lo, hi - universe - 2)
             key = lambda: origin + rng.randrange(universe)
@@ -617,7 +655,7 @@ def gen_capi(tier, seed):
             nb = rng.choice([0, 0, 5, 300, 2000])
             bulk = ["-"] if rng.random() < 0.3 else ["%d:%d" % (k, val()) for k in sorted(key() for _ in range(nb))]
             ops = []
-            nops = rng.choice([100, 700, 1500]) if tier == "quick" else rng.choice([300, 2000, 6000])
+            nops = rng.choice([100, 700, 1500]) if tier == "quick" else rng.choice([300, 1500, 3000])
             for t in range(nops):
                 r = rng.random()
                 if r < 0.62: ops.append("I:%d:%d" % (key(), val())); o = "I"
@@ -717,15 +755,30 @@ def gen_reject(tier, seed):
         add("dyn-history", " ".join(t))
     return cases, stats
 
-def gen_all(tier, seed, scale=0.34):
-    """a slice of every component's quick stream (for the cross-cutting properties C16/C17/C19)"""
+def gen_all(tier, seed, scale=None):
+    """a slice of every component's stream (for the cross-cutting properties C16/C17/C19); the thorough slice is kept to a size
+    the sanitizer builds and the extracted model get through in well under an hour"""
+    if scale is None: scale = 0.34 if tier == "quick" else 0.08
     rng = random.Random(seed)
     out, stats = [], {}
-    for name, (cs, st) in (("idx", gen_idx(tier, seed, want_big=False)), ("seg", gen_seg(tier, seed)), ("dyn", gen_dyn(tier, seed)),
+    def dyn_stream():
+        if tier == "quick": return gen_dyn(tier, seed)
+        # thorough: several quick-sized streams (short histories: the full private state is dumped after every operation, so the
+        # long thorough histories would produce gigabytes here; C05/C06/C15's own thorough tiers run those)
+        cs = []
+        for i in range(3):
+            c, st = gen_dyn("quick", seed + 101 * i)
+            for l in c:
+                t = l.split(" ", 2); t[1] = "%s_%d" % (t[1], i); cs.append(" ".join(t))
+        return cs, {}
+    for name, (cs, st) in (("idx", gen_idx(tier, seed, want_big=False)), ("seg", gen_seg(tier, seed)), ("dyn", dyn_stream()),
                            ("bkt", gen_var(tier, seed, "BK")), ("efi", gen_var(tier, seed, "EF")), ("map", gen_map(tier, seed)),
                            ("mul", gen_multi(tier, seed)), ("capi", gen_capi(tier, seed)), ("reject", gen_reject(tier, seed))):
-        k = max(6, int(len(cs) * scale))
+        k = max(6, int(len(cs) * (scale if not (name == "dyn" and tier != "quick") else 0.34)))
         pick = cs if len(cs) <= k else rng.sample(cs, k)
+        # boundary cases aimed at memory safety are always kept (iterators started on max-1 over an indexed level)
+        must = [c for c in cs if c.split(" ", 2)[1].startswith("dm") and c not in pick][: (3 if tier == "quick" else 6)]
+        pick = pick + must
         out += pick; stats[name] = len(pick)
     return out, stats
 
@@ -791,4 +844,22 @@ def gen_cmp(tier, seed):
         cases.append("CMP zb%d %s %d %d %d %d %d | %s | %s" % (cid, cfg["name"], cfg["kbits"], cfg["eps"], cfg["epsrec"], cfg["fdouble"], par,
                                                                 " ".join(map(str, keys)), " ".join(map(str, sorted(qs)))))
         stats["n"]["chunked"] = stats["n"].get("chunked", 0) + 1
+    if tier != "quick":
+        # one level with > 50000 segments (Epsilon 1, irregular gaps) and one very long segment inside (a run of consecutive
+        # keys): the Elias-Fano intercept vector then exceeds 100000 bits and sdsl's select support takes its large-vector
+        # construction path (long superblocks), which smaller indexes never reach
+        cfg = next((c for c in cfgs if c["eps"] == 1 and c["kbits"] == 32 and c["epsrec"] == 0), None) or next(c for c in cfgs if c["eps"] == 1)
+        keys, k = [], 1000
+        R = 6000                                              # (a run long enough for a LONG superblock needs millions of keys:
+                                                              #  too slow for the list-based judge, see DESIGN 9.6, seed C08d)
+        for i in range(190000 + R):
+            if 90000 <= i < 90000 + R: k += 1                 # a long consecutive run = one long segment
+            else: k += rng.choice([1, 2, 3, 5, 9, 14, 22])
+            keys.append(k)
+        qs = sorted(set(rng.sample(keys, 300) + keys[89990:90010] + keys[90000 + R - 10:90000 + R + 10] + keys[93000:93005]
+                        + [keys[0], keys[-1], keys[-1] + 5]))
+        cid += 1
+        cases.append("CMP zh%d %s %d %d %d %d 1 | %s | %s" % (cid, cfg["name"], cfg["kbits"], cfg["eps"], cfg["epsrec"], cfg["fdouble"],
+                                                              " ".join(map(str, keys)), " ".join(map(str, qs))))
+        stats["n"]["huge-level"] = 1
     return cases, stats
